@@ -136,3 +136,5 @@ func fnName(f *ssa.Function) string {
 	}
 	return s
 }
+
+type typesFunc = types.Func
